@@ -54,6 +54,10 @@ pub struct Call {
     /// client crash: the caller-owned seam crossing with this number panics (0 = never)
     #[serde(default)]
     pub crash_at: u64,
+    /// re-entrancy: the caller-supplied interpreter makes a nested library call on every n-th
+    /// callback (0 = never)
+    #[serde(default)]
+    pub reenter: u64,
 }
 
 /// Caller-owned token type for `basic_annotate`.
@@ -117,20 +121,23 @@ impl Replace for MTok {
     }
 }
 
+pub const REENTRANT_MARK: &str = "REENTRANCY-MISMATCH ";
+
 fn exec_with<L: LangInterpreter>(l: &L, call: &Call, yield_on: bool) -> String {
+    let reentry_flag = Rc::new(std::cell::Cell::new(false));
     let log = Log::new();
     log.crash_at.set(call.crash_at);
     log.yield_on.set(yield_on);
     let r = guarded(|| match &call.op {
         Op::T2d { text } => {
-            let cl = CrashLang::new(l, call.crash_at);
+            let cl = CrashLang::with_reentry(l, call.crash_at, call.reenter, reentry_flag.clone());
             match text2digits(text, &cl) {
                 Ok(s) => format!("Ok({s})"),
                 Err(e) => format!("Err({e:?})"),
             }
         }
         Op::Rewrite { text, thr } => {
-            let cl = CrashLang::new(l, call.crash_at);
+            let cl = CrashLang::with_reentry(l, call.crash_at, call.reenter, reentry_flag.clone());
             replace_numbers_in_text(text, &cl, threshold_of(thr))
         }
         Op::Find { toks, thr } => {
@@ -142,7 +149,7 @@ fn exec_with<L: LangInterpreter>(l: &L, call: &Call, yield_on: bool) -> String {
             format!("{} bits={:?}", fmt_occs(&occs), occs.iter().map(|o| o.value_bits).collect::<Vec<_>>())
         }
         Op::FindIter { toks, thr, requests } => {
-            let src = SimSource { toks, next: 0, log: &log };
+            let src = SimSource { toks, next: 0, log: &log, exact_size: toks.len() % 2 == 0 };
             log.in_request.set(true);
             let mut it = find_numbers_iter(src, l, threshold_of(thr));
             let mut got = vec![];
@@ -176,7 +183,7 @@ fn exec_with<L: LangInterpreter>(l: &L, call: &Call, yield_on: bool) -> String {
             parts.join(" ")
         }
         Op::Raw { words, decimal_from } => {
-            let cl = CrashLang::new(l, call.crash_at);
+            let cl = CrashLang::with_reentry(l, call.crash_at, call.reenter, reentry_flag.clone());
             let mut int = DigitString::new();
             let mut dec = DigitString::new();
             let mut trace = String::new();
@@ -210,7 +217,7 @@ fn exec_with<L: LangInterpreter>(l: &L, call: &Call, yield_on: bool) -> String {
             format!("{trace} {fin} {grp}")
         }
         Op::Annotate { text } => {
-            let cl = CrashLang::new(l, call.crash_at);
+            let cl = CrashLang::with_reentry(l, call.crash_at, call.reenter, reentry_flag.clone());
             let mut toks: Vec<BasicToken> = tokenize(text).collect();
             cl.basic_annotate(&mut toks);
             toks.iter().map(|t| if t.nan { '!' } else { '.' }).collect::<String>()
@@ -228,9 +235,15 @@ fn exec_with<L: LangInterpreter>(l: &L, call: &Call, yield_on: bool) -> String {
             None => "None".to_string(),
         },
     });
-    match r {
+    let res = match r {
         Ok(s) => s,
         Err(_) => "PANIC".to_string(),
+    };
+    if reentry_flag.get() {
+        // a library call nested inside a caller callback did not give what it gives on its own
+        format!("{REENTRANT_MARK}{res}")
+    } else {
+        res
     }
 }
 
@@ -324,7 +337,8 @@ pub fn gen_call(rng: &mut Rng) -> Call {
         }
     };
     let crash_at = if rng.chance(1, 6) { rng.range(1, 25) as u64 } else { 0 };
-    Call { lang, concrete, op, crash_at }
+    let reenter = if rng.chance(1, 8) { rng.range(1, 6) as u64 } else { 0 };
+    Call { lang, concrete, op, crash_at, reenter }
 }
 
 /// The corpus and its reference table (computed in a pristine child process).
@@ -544,7 +558,17 @@ fn systematic_families(rng: &mut Rng, budget: usize) -> Vec<Call> {
                 rng.word(pool.units),
                 rng.word(pool.content)
             );
-            out.push(Call { lang, concrete: rng.chance(1, 2), op: Op::Rewrite { text, thr: "0".into() }, crash_at: 0 });
+            out.push(Call { lang, concrete: rng.chance(1, 2), op: Op::Rewrite { text, thr: "0".into() }, crash_at: 0, reenter: 0 });
+        }
+        // two long calls per language (positions in the hundreds)
+        {
+            let cfg = GenCfg::swarm(rng);
+            let n = rng.range(300, 600);
+            let toks = gen_stream(rng, pool, &GenCfg { glue_pct: 0, ..cfg.clone() }, n);
+            out.push(Call { lang, concrete: rng.chance(1, 2), op: Op::Find { toks, thr: "0".into() }, crash_at: 0, reenter: 0 });
+            let n = rng.range(300, 600);
+            let text = gen_text(rng, pool, &cfg, n);
+            out.push(Call { lang, concrete: rng.chance(1, 2), op: Op::Rewrite { text, thr: "10".into() }, crash_at: 0, reenter: 0 });
         }
         let start = out.len();
         'w: for w in &words {
@@ -558,7 +582,7 @@ fn systematic_families(rng: &mut Rng, budget: usize) -> Vec<Call> {
                     1 => Op::Raw { words: vec![v.to_lowercase()], decimal_from: usize::MAX },
                     _ => Op::T2d { text: v },
                 };
-                out.push(Call { lang, concrete, op, crash_at: 0 });
+                out.push(Call { lang, concrete, op, crash_at: 0, reenter: 0 });
             }
         }
     }
@@ -727,6 +751,15 @@ impl Check for C14 {
                     if *requests < 100 {
                         stats.hit("fault.abandoned_lazy_iterator");
                     }
+                }
+                if got.starts_with(REENTRANT_MARK) && violation.is_none() {
+                    violation = Some(Violation {
+                        oracle: "H5-reentrancy".into(),
+                        detail: format!(
+                            "thread {ti} call #{k} {}: a library call made from inside a caller-supplied interpreter callback (same thread, nested) panicked or gave a different result than the same call on its own",
+                            serde_json::to_string(call).unwrap_or_default()
+                        ),
+                    });
                 }
                 if got != &case.expected[*ci] && violation.is_none() {
                     violation = Some(Violation {
